@@ -253,6 +253,16 @@ def wide_cases(rng, thorough):
         # max only: a long text cut at a wide column
         for pieces in WIDE_TEXTS[6:]:
             out.append(single(rng.choice(SCRIPTS), list(pieces), [0, w + 1, 0, ""]))
+    # very wide columns (1365 .. 10000), each case TWICE in a row (all cases of a run are encoded on one thread, so
+    # the second one meets whatever the first left behind: a cached run of fill characters, a grown buffer), same
+    # fill and another fill alternating, both alignments, short and empty texts
+    for w in ([1365, 1366, 1367, 2731, 4096, 4097] if thorough else [1366, 1400, 2000]):
+        for al in (1, 2):
+            for fill in WIDE_FILLS[1:] if thorough else ["~", "\u00e9", "\u20ac", "\u4e2d", "\U0001d11e"]:
+                for pieces in ([], ["ab", "c"]):
+                    c1 = single(SCRIPTS[0], list(pieces), [w + 1, 0, al, fill])
+                    out += [c1, [list(x) if isinstance(x, list) else x for x in c1]]
+                    out.append(single(SCRIPTS[0], ["x"], [w + 1 - 3, 0, al, "\u20ac" if fill != "\u20ac" else "\u4e2d"]))
     # ONE piece of 2 .. 8 KiB (uniform 1-, 2-, 3-, 4-byte characters and a mix) under a minimum width just below,
     # at and above its character count, a maximum width cutting it, and both; also inside a group
     for n in ([2047, 2048, 2049, 4096, 8200] if thorough else [2048, 2049, 4100]):
